@@ -1,17 +1,24 @@
 // vd-native: drivers for the native-contract layer
-//   C19 genesis-replay   trust roots installed once (spec/LightClient.tla)
-//   C18 witness-*        privileged operations require the right witness (spec/Witness.tla)
-//   C17 keys-*           storage confinement and key unambiguity (spec/StorageKeys.tla)
+//
+//	C19 genesis-replay   trust roots installed once (spec/LightClient.tla)
+//	C18 witness-*        privileged operations require the right witness (spec/Witness.tla)
+//	C17 keys-*           storage confinement and key unambiguity (spec/StorageKeys.tla)
 package main
 
 import (
 	"os"
+	"runtime/pprof"
 
 	"verifh/kit/vio"
 )
 
 func main() {
 	defer vio.Flush()
+	if pf := os.Getenv("VD_PROFILE"); pf != "" {
+		f, _ := os.Create(pf)
+		pprof.StartCPUProfile(f)
+		defer pprof.StopCPUProfile()
+	}
 	if len(os.Args) < 2 {
 		vio.Fatal("usage: vd-native <cmd> ...")
 	}
